@@ -42,6 +42,22 @@ def feed(dec, fmt, pk):
     return dec.decode_yacht_devices_string("01:02:03.004 R " + pk.decode().strip())
 
 
+def feed_claim(dec, fmt, src, unique):
+    """An ISO address claim (PGN 60928) of address src arrives on the same link."""
+    from .. import traffic
+    i = wire.ident(60928, src, 255, 6)
+    data = traffic.iso_name(unique, 137 + unique % 5).to_bytes(8, "little")
+    try:
+        if fmt == "ebyte":
+            dec.decode_tcp(wire.ebyte(i, data))
+        elif fmt == "usb":
+            dec.decode_usb(wire.usb(i, data))
+        else:
+            dec.decode_yacht_devices_string("01:02:03.004 R " + wire.yd(i, data))
+    except Exception:
+        pass
+
+
 def check_frames(frames, payload, prev_seq, pgn, src, dest, prio, tag):
     """Frame validity predicate. Returns (discrepancies, seq)."""
     out = []
@@ -104,7 +120,17 @@ def one_message(ctx, enc, holder, dec, fmt, pgn, payload, prev_seq, src=7, dest=
     out = [(b, w, case) for b, w in res]
     got = []
     for i, p in enumerate(pk):
-        if i and warp:
+        if warp == "claims":
+            # the sender (or the addressee) claims its address just before the message and again, with another NAME, inside it
+            if i == 0:
+                feed_claim(dec, fmt, src if len(payload) % 2 else min(dest, 253), 1 + len(payload) % 7)
+            elif i == 1:
+                feed_claim(dec, fmt, src if len(payload) % 2 else min(dest, 253), 11 + len(payload) % 7)
+        elif isinstance(warp, str) and warp.startswith("wall") and i:
+            # the system time is stepped between two frames (monotonic time is not)
+            from ..common import CLOCK
+            CLOCK.step_wall(float(warp[4:]))
+        elif i and warp:
             from ..common import CLOCK
             CLOCK.warp(warp)
         try:
@@ -172,6 +198,10 @@ def _grid(ctx: Ctx, item):
                         preload(dec, [255, 256, 257, 1023, 1024, 1025, 2047, 2048, 300, 4100, 64, 65, 511, 512][(n // 16) % 14])
                         warp = [0, 2.0, 0, 90.0][(n // 16) % 4]
                         ctx.klass("grid_decoder_with_history")
+                    elif k == 6 and fi == 0 and n % 4 == 1:
+                        # address claims of the sender around / inside the message, or the system time stepped between frames
+                        warp = ["claims", "wall-0.8", "claims", "wall-7200"][(n // 4) % 4]
+                        ctx.klass("grid_with_claims_or_wall_clock_step")
                     prev = None
                     # reach counter state k by encoding k messages first (through the public API)
                     for j in range(k):
@@ -281,101 +311,14 @@ def _lists(ctx: Ctx, item):
                 out.append((b + "|list", w, c))
         return out
 
-    ctx.hyp(check, msgs(), st.sampled_from(FORMATS), st.sampled_from([0, 0, 0, 7, 255, 256, 1023, 1024, 1025]), st.sampled_from([0, 0, 1.5, 600.0]),
+    ctx.hyp(check, msgs(), st.sampled_from(FORMATS), st.sampled_from([0, 0, 0, 7, 255, 256, 1023, 1024, 1025]), st.sampled_from([0, 0, 1.5, 600.0, "claims", "claims", "wall-0.8", "wall-3600", "wall3600"]),
             max_examples=n_hyp, name="lists")
-
-
-def tick_targets(limit):
-    """Frame counts at which periodic housekeeping is likely to run: powers of two, round decimal numbers and their multiples."""
-    t = set()
-    e = 4
-    while 2 ** e <= limit:
-        t.add(2 ** e)
-        e += 1
-    for p in (2 ** 16, 2 ** 15, 2 ** 14, 2 ** 12, 2 ** 10, 50000, 10000, 100000, 1000, 4096 * 5):
-        t.update(range(p, limit + 1, p) if limit // p <= 40 else range(p, 40 * p + 1, p))
-    k = 100
-    while k <= limit:
-        t.update(int(m * k) for m in (1, 2, 2.5, 3, 4, 5, 6, 7.5, 8, 9) if m * k <= limit)
-        k *= 10
-    out, last = [], -100
-    for x in sorted(t):
-        if x - last >= 16 and x <= limit:
-            out.append(x)
-            last = x
-    return out
-
-
-def tick_history(limit, report, targets=None):
-    """One decoder sees a long run of fast-packet frames (up to `limit`). Around every target count T three otherwise idle streams
-    (fresh or long unused keys) start a message on the (T-1)-th, T-th and (T+1)-th frame the decoder has ever seen; every message
-    (also of the busy filler stream) must be delivered. report(bucket, what) is called for every discrepancy."""
-    from nmea2000.decoder import NMEA2000Decoder
-    dec = NMEA2000Decoder()
-    count = 0
-    seqs = {}
-
-    def send(pgn, src, dest, frames):
-        nonlocal count
-        r = None
-        i = wire.ident(pgn, src, dest, 3)
-        for fr in frames:
-            count += 1
-            r = dec.decode_tcp(wire.ebyte(i, fr))
-        return r
-
-    def fresh(key, payload):
-        seqs[key] = (seqs.get(key, -1) + 1) % 8
-        return wire.segment(payload, seqs[key])
-
-    def verify(r, pgn, payload, what):
-        if r is None:
-            report("C03|ebyte|long-run|not-delivered", f"{what}: no message after the last frame")
-        elif r.id != fp.fallback_id(pgn) or fp.recon(r) != int.from_bytes(payload, "little"):
-            report("C03|ebyte|long-run|payload", f"{what}: wrong message or payload")
-
-    msgno = 0
-    h2, h1 = fp.header(130816, 1), fp.header(130816, 2)
-    for ti, target in enumerate(targets if targets is not None else tick_targets(limit)):
-        # busy stream up to two frames before the target
-        while count < target - 2:
-            left = target - 2 - count
-            pl = (h2 + bytes([msgno & 0xFF]) * 8) if left >= 2 else (h1 + bytes([msgno & 0xFF]) * 3)     # two frames / one frame
-            msgno += 1
-            verify(send(130816, 2, 255, fresh("f", pl)), 130816, pl, f"busy stream message {msgno} (frame {count} of the run)")
-        idle = []
-        for j in range(3):
-            n = 3 * ti + j
-            src, dest = 10 + n % 240, 5 + (n // 240) % 5
-            pl = fp.header(126720, 3 + j) + bytes([ti & 0xFF, j, 0xA5]) * 5          # 17 bytes: three frames
-            frames = fresh(("r", src, dest), pl)
-            idle.append((src, dest, pl, frames, count + 1))
-            if send(126720, src, dest, frames[:1]) is not None:
-                report("C03|ebyte|long-run|early-delivery", f"message returned at a first frame (frame {count} of the run)")
-        for src, dest, pl, frames, at in idle:
-            verify(send(126720, src, dest, frames[1:]), 126720, pl,
-                   f"idle stream {src}->{dest}: message whose first frame was frame number {at} seen by the decoder")
-    return count
-
-
-def _ticks(ctx: Ctx, item):
-    limit, = item
-    found = []
-    targets = tick_targets(limit)
-    n = tick_history(limit, lambda b, w: found.append((b, w)), targets)
-    ctx.count(n)
-    ctx.nontrivial_extra += len(targets) * 3
-    ctx.klass("long_run_frames", n)
-    ctx.klass("long_run_idle_stream_messages", len(targets) * 3)
-    for b, w in found[:5]:
-        ctx.report(b, w, {"ticks": limit})
 
 
 def run(ctx: Ctx):
     # long runs: messages that start on the 2^e-th (+-1) frame a decoder sees, on streams idle since the previous such point
-    import os
-    limits = [2 ** 17 + 100] if os.environ.get("VF_SUBPASS") else [2 ** 18 + 100, 2 ** 20 + 100] if ctx.quick else [2 ** 18 + 100, 2 ** 20 + 100, 2 ** 22 + 100]
-    pmap(ctx, _ticks, [(x,) for x in limits])
+    from .. import longrun
+    pmap(ctx, longrun.ticks, [(x, "C03") for x in longrun.limits(ctx)])
     pmap(ctx, _grid, [(c, ctx.quick, ctx.seed) for c in chunks(list(range(224)), 32)])
     ctx.exhaustive = True
     ctx.notes["exhaustive_space"] = "length 0..223 x counter state 0..7 x 3 frame formats" + (" x 1 filling" if ctx.quick else " x 4 fillings")
@@ -389,9 +332,8 @@ def run(ctx: Ctx):
 
 def replay(ctx: Ctx, case):
     if "ticks" in case:
-        found = []
-        tick_history(case["ticks"], lambda b, w: found.append((b, w, case)))
-        return found[:5]
+        from .. import longrun
+        return longrun.replay(case, "C03")
     from nmea2000.decoder import NMEA2000Decoder
     from nmea2000.encoder import NMEA2000Encoder
     if "definition" in case:
